@@ -311,7 +311,41 @@ def purpose_total(V, nops):
     return [("tensor purposes are resolved without an internal assertion", shared.purpose in (TensorPurpose.Weights, TensorPurpose.FeatureMap))]
 
 
-FUNCS = {"purpose_total": purpose_total, "t_quant_scales": t_quant_scales, "main_config": main_config, "t_c16": t_c16, "snapshot_dtype": snapshot_dtype, "buffering_arith": buffering_arith, "t_resize": t_resize, "t_strides": t_strides, "t_broadcast": t_broadcast,
+def writer_total(V):
+    """writing a constant operand never aborts: the REAL TFLiteSerialiser.serialise_tensor for every rank (0, 1, 2) and element type a model can
+    carry (symbolic choice), with and without quantisation parameters: the constant's bytes are stored with exactly its size in bytes."""
+    import numpy as np
+    import ethosu.vela.tflite_writer as tw
+    from ethosu.vela.tensor import Tensor, QuantizationParameters
+    from ethosu.vela.data_type import DataType
+
+    rank = V.choice("rank", [0, 1, 2])
+    dname = V.choice("dtype", ["int8", "uint8", "int16", "int32", "int64", "float32", "bool"])
+    quantised = bool(V.bool("has_quantisation"))
+    dt = getattr(DataType, dname)
+    npdt = {"int8": np.int8, "uint8": np.uint8, "int16": np.int16, "int32": np.int32, "int64": np.int64, "float32": np.float32, "bool": np.bool_}[dname]
+    shape = [3] * rank
+    t = Tensor(shape, dt, "c")
+    t.values = np.ones(shape, dtype=npdt) if rank else np.array(1, dtype=npdt)
+    if quantised:
+        q = QuantizationParameters()
+        q.scale_f32, q.zero_point = np.float32(0.5), 0
+        t.quantization = q
+    ser = tw.TFLiteSerialiser(_O(subgraphs=[], metadata=[]))
+    ser.buffer_map = {t: 1}
+    ser.buffers_to_write = [None, None]
+    try:
+        ser.serialise_tensor(t)
+    except Exception as e:  # noqa: BLE001
+        if isinstance(e, (core.PathAbort, core.Infeasible)):
+            raise
+        return [("a constant of rank %d and type %s is written without an internal %s" % (rank, dname, type(e).__name__), False)]
+    buf = ser.buffers_to_write[1]
+    return [("the constant is written", buf is not None), ("with exactly its bytes", buf is not None and int(buf.size) == int(t.values.size) * int(np.dtype(npdt).itemsize)
+             and buf.ndim == 1)]
+
+
+FUNCS = {"writer_total": writer_total, "purpose_total": purpose_total, "t_quant_scales": t_quant_scales, "main_config": main_config, "t_c16": t_c16, "snapshot_dtype": snapshot_dtype, "buffering_arith": buffering_arith, "t_resize": t_resize, "t_strides": t_strides, "t_broadcast": t_broadcast,
          "t_tconv": t_tconv, "main_errors": main_errors}
 
 
@@ -329,6 +363,7 @@ def instances(tier, seed):
     for p in ("SAME", "VALID"):
         out.append(dict(key="constraints_total/tconv/%s" % p, fn="t_tconv", params=dict(padding=p)))
     out.append(dict(key="constraints_total/quant_scales", fn="t_quant_scales", params={}))
+    out.append(dict(key="writer_total", fn="writer_total", params={}))
     for n in (2, 3):
         out.append(dict(key="purpose_total/%d" % n, fn="purpose_total", params=dict(nops=n)))
     from harness import c16, c18
